@@ -436,6 +436,48 @@ def fault_after_the_change(ctx: Ctx, kind: str, doc_edges: set) -> None:
         del app.orchestrator._register_new_invocations
 
 
+def forked_process_names_itself(ctx: Ctx) -> None:
+    """each entry names the runner that made the change - also when the change is made by a process FORKED from one that has already
+    recorded changes (a worker of a process runner, a pre-forking server): outside a runner the "runner" is the process itself"""
+    import json as _json
+    import os as _os
+
+    app = make_app("mem", ctx.tmp, app_id="c10fork")
+    t = app.task(T.prog_body)
+    first = t("ok")
+    flush(app)
+    mine = [h.runner_context_id for h in app.state_backend.get_history(first.invocation_id)]
+    r, w = _os.pipe()
+    pid = _os.fork()
+    if pid == 0:
+        try:
+            _os.close(r)
+            inv = t("ok")
+            flush(app)
+            ids = [h.runner_context_id for h in app.state_backend.get_history(inv.invocation_id)]
+            rec = app.orchestrator.get_invocation_status_record(inv.invocation_id)
+            _os.write(w, _json.dumps({"pid": _os.getpid(), "history": ids, "owner": rec.runner_id}).encode())
+        finally:
+            _os._exit(0)
+    _os.close(w)
+    data = b""
+    while chunk := _os.read(r, 65536):
+        data += chunk
+    _os.close(r)
+    _os.waitpid(pid, 0)
+    ctx.count()
+    ctx.distinct(("forked-process",))
+    try:
+        d = _json.loads(data.decode())
+    except Exception:  # noqa: BLE001
+        ctx.obligation("the forked-process probe of C10 ran", False, repr(data[:200]))
+        return
+    bad = [i for i in d["history"] if not str(i).endswith(f"-{d['pid']}")]
+    if bad or not all(str(i).endswith(f"-{_os.getpid()}") for i in mine):
+        ctx.report("history-names-another-process", f"a process forked from one that had already recorded a change (pid {_os.getpid()}, entries {mine}) registers an invocation of its own: "
+                                                     f"its REGISTERED entry names {d['history']} (the forked process is pid {d['pid']})", {"scenario": "forked-process"})
+
+
 def adjacent_transitions(ctx: Ctx, kind: str, doc_edges: set) -> None:
     """two accepted changes of ONE invocation by different runners back to back: the second request is issued (and retried)
     while the first is anywhere between its validation, its write and its return - the first thread paused after each of its
@@ -557,6 +599,7 @@ def run(ctx: Ctx) -> None:
     ctx.cov["rule"] = ("per backend: sequential lifecycle rounds (success / failure / retries / concurrency-control reroute / kill-and-reroute / pending and "
                        "running recovery) and scheduled concurrent poll-and-run scenarios; history writers deferred and flushed in shuffled order; "
                        "distinct = distinct (backend, scenario, status-change sequence of an invocation)")
+    forked_process_names_itself(ctx)
     for kind in ("mem", "sqlite"):
         sequential(ctx, kind, doc_edges)
         batches(ctx, kind, doc_edges)
